@@ -347,6 +347,13 @@ def check_failure_op(sc, obs, opi, add, latency_bound=None):
         add('C04', 'cause_has_worker_traceback', {'cause': exc.get('cause_text')})
     elif f.get('at') and op.get('elem') != 'badrepr' and not any(('Arg 0: %r' % elem_repr(op, i)) in (exc.get('cause_text') or '') or str(i) in (exc.get('cause_text') or '') for i in f['at']):
         add('C04', 'cause_names_failing_arguments', {'cause': (exc.get('cause_text') or '')[:200]})
+    elif f.get('at') and op.get('input', 'list') != 'nd':
+        # … and names exactly them: one "Arg <k>: <repr>" line per argument of a failing task, as the function received them
+        text = exc.get('cause_text') or ''
+        got = [l.strip() for l in text.splitlines() if l.strip().startswith('Arg ')]
+        wants = [arg_lines(op, i) for i in f['at']]
+        if got and all(w is not None for w in wants) and not any(got == w for w in wants):
+            add('C04', 'cause_lists_the_failing_tasks_arguments', {'cause_lines': got[:6], 'expected_one_of': wants[:3]})
     if op['op'] in ('map', 'map_unordered') and o.get('result') is not None:
         add('C04', 'map_no_partial', {'result': str(o.get('result'))[:100]})
     if op['op'] in ('imap', 'imap_unordered'):
@@ -361,6 +368,20 @@ def check_failure_op(sc, obs, opi, add, latency_bound=None):
         tfail = min((c[6] for c in obs.get('calls', []) if c[0] == opi and c[7] is None), default=None)
         if tfail is not None and o.get('t1') is not None and o['t1'] - tfail > latency_bound:
             add('C04', 'prompt', {'raised_in_worker_at': tfail, 'call_raised_at': o['t1'], 'bound': latency_bound})
+
+
+def arg_lines(op, i):
+    """the "Arg k: repr" lines that describe task i of this call (None when the element kind has no stable repr)"""
+    from harness.detsim.scenario import elem_of
+    kind = op.get('elem', 'scalar')
+    if kind == 'badrepr':
+        return None
+    e = elem_of(kind, i)
+    if isinstance(e, dict):
+        return ['Arg %s: %r' % (k, v) for k, v in e.items()]
+    if isinstance(e, (tuple, list)):
+        return ['Arg %d: %r' % (k, v) for k, v in enumerate(e)]
+    return ['Arg 0: %r' % (e,)]
 
 
 def elem_repr(op, i):
